@@ -409,7 +409,8 @@ def oracle(ctx, deep=False, cal=False, only=None):
     if only:
         plan = [p for p in plan if p[0] in only]
     done = 0
-    jit_cpu = 0.0   # CPU time of the Numba compilation (first order of a mesh beyond 5 s): not charged to the budget
+    jit_cpu = 0.0   # CPU time dominated by Numba compilation (the whole first mesh: grid, spaces, both potentials; later
+    #                 the first order of a mesh beyond 5 s): not charged to the budget
     counts = dict(inside=0, outside=0, near=0)
     try:
         for mi, (name, variant) in enumerate(plan):
@@ -496,7 +497,7 @@ def oracle(ctx, deep=False, cal=False, only=None):
                         per[(vname, side, order)] = wv[side]
                         key = (vname, "inside" if side else "outside", order)
                         worst[key] = max(worst.get(key, 0.0), wv[side][0])
-                if oi == 0:
+                if oi == 0 and done > 0:
                     jit_cpu += max(0.0, time.process_time() - c_order - 5.0)
                 if cal:
                     ctx.log("cal", mesh["desc"], grid.number_of_elements, order,
@@ -522,6 +523,8 @@ def oracle(ctx, deep=False, cal=False, only=None):
                                 DECAY * seq[oi - 1][0], seq[oi][1], P, dh, c, lad, orders,
                                 failing=[orders[i] for i in bad_decay])
             done += 1
+            if done == 1:
+                jit_cpu = time.process_time() - c_start
             ctx.log(f"C02 oracle: {mesh['desc']} ({grid.number_of_elements} el, {mesh['family']}, labels {labels} "
                     f"{scheme}, {int(inside.sum())} in / {int((~inside).sum())} out) variants {list(builders)} top order "
                     f"{orders[-1]}: worst "
